@@ -13,7 +13,8 @@ import scen
 
 PROP = "C07"
 POOL = ["ed1", "ed2", "ed3", "ed4", "ed5", "ed6", "edp1", "edp2", "ec-b", "ec-c"]
-DISSENT = ["none", "none", "byproducts_only", "command_only", "path", "digest", "alg", "extra", "missing", "second_alg"]
+DISSENT = ["none", "none", "byproducts_only", "command_only", "path", "digest", "alg", "extra", "missing", "second_alg",
+           "digest_truncated", "digest_extended", "digest_last_bit"]
 
 
 def judge(case, obs, res):
@@ -43,6 +44,18 @@ def dissent_doc(doc, kind, where, rng):
     elif kind == "digest":
         p = rng.choice(paths)
         tgt[p] = scen.digest(0xEE)
+    elif kind == "digest_truncated":
+        p = rng.choice(paths)
+        a, h = list(tgt[p].items())[0]
+        tgt[p] = {a: h[:2 * rng.choice([0, 1, 4, 16, 31])]}
+    elif kind == "digest_extended":
+        p = rng.choice(paths)
+        a, h = list(tgt[p].items())[0]
+        tgt[p] = {a: h + "00"}
+    elif kind == "digest_last_bit":
+        p = rng.choice(paths)
+        a, h = list(tgt[p].items())[0]
+        tgt[p] = {a: h[:-1] + ("0" if h[-1] != "0" else "1")}
     elif kind == "alg":
         p = rng.choice(paths)
         h = list(tgt[p].values())[0]
@@ -141,5 +154,5 @@ def main(ctx):
         assumptions=["validity of all links by construction"],
         required=["positive_control_accepted", "dissent:path", "dissent:digest", "dissent:alg", "dissent:extra",
                   "dissent:missing", "where:materials", "where:products", "rank:smallest", "rank:largest", "rank:middle",
-                  "surplus_links", "threshold:2", "threshold:3", "threshold:4", "dissent:byproducts_only"],
+                  "surplus_links", "threshold:2", "threshold:3", "threshold:4", "dissent:byproducts_only", "dissent:digest_truncated"],
         min_evals=1000)
